@@ -51,6 +51,25 @@ def recursion_budget(rep, prog):
         rep.bad(rule, rule + '|RECURSION_LIMIT', '', 'RECURSION_LIMIT is %s, documented limit is 100' % c['v'])
     else:
         rep.ok(rule, rule + '|RECURSION_LIMIT', 'RECURSION_LIMIT == 100')
+    # limit_reached refuses exactly when the budget is exhausted (== 0), so `limit_reached()?` establishes budget >= 1
+    lr = [b for b in prog.bodies.values() if b.crate == 'pilota' and b.name == 'limit_reached' and 'DecodeContext' in (b.impl_self or b.key)]
+    key = rule + '|limit_reached refuses at 0'
+    if len(lr) != 1:
+        rep.anchor_missing(rule, 'DecodeContext::limit_reached')
+    else:
+        l = lr[0]
+        zero = False
+        for bb in l.bbs:
+            t = bb['t']
+            if t['k'] == 'switch':
+                c = l.expr_op(t['o'])
+                if c[0] == 'bin' and c[1] in ('Eq', 'Ne') and ('const', 0) in (c[2], c[3]):
+                    zero = True
+        errs = any(st.get('r', {}).get('k') == 'agg' and st['r']['kind'].endswith('Result::Err') for bb in l.bbs for st in bb['st'])
+        if zero and errs:
+            rep.ok(rule, key, 'Err iff the remaining budget == 0', l.loc())
+        else:
+            rep.bad(rule, key, l.loc(), 'DecodeContext::limit_reached no longer refuses exactly when the remaining budget is 0 (compares with 0: %s, builds Err: %s): enter_recursion can underflow or nesting beyond the limit is accepted' % (zero, errs))
     # enter_recursion must not be callable from outside the crate, recurse_count private: decided by the type system;
     # the structural part checked here is that the only decrement of recurse_count is inside enter_recursion
     for b in prog.bodies.values():
@@ -58,7 +77,8 @@ def recursion_budget(rep, prog):
             for bi, bb in enumerate(b.bbs):
                 for st in bb['st']:
                     p = st.get('p')
-                    if p and any(isinstance(e, dict) and e.get('f') == 'recurse_count' for e in p['p']):
+                    # a field of a DecodeContext (its only state is the budget, whatever the field is called)
+                    if p and any(isinstance(e, dict) and 'f' in e for e in p['p']) and 'DecodeContext' in b.locals[p['l']]['ty'] and 'DecodeContext' in b.locals[p['l']]['ty'].split('<')[0]:
                         key = '%s|write recurse_count|%s' % (rule, b.id)
                         if b.name in ('enter_recursion', 'default'):
                             rep.ok(rule, key, 'budget written only by its owner', b.loc(st.get('ln')))
